@@ -182,8 +182,5 @@ func TestC01(t *testing.T) {
 	if e1Replayer(scs, col) {
 		return
 	}
-	item := 0
-	for _, sc := range scs {
-		e1Explore(sc, col, &item)
-	}
+	e1ExploreTiers(c01Scenarios, nil, col)
 }
